@@ -161,3 +161,15 @@ prop("C10",
      quick=dict(shards=2, timeout=400), thorough=dict(shards=16, timeout=1500),
      assumptions=COMMON + ["mp4ff's DecryptInit/DecryptSegment are the decryptor (trusted third-party code, separate from the encrypt path)",
                            "CPIX: only the two packages of pkg/drm/testdata exist offline"])
+
+prop("C09",
+     rule="rapid draws (constant-duration asset: bundled 2/6/8 s or generated layouts, for paced cases with 200-600 ms segments; video or audio "
+          "representation; addressing Number/Time/Timeline-Number; start, startNumber; ato from one sample short of the segment down to 5 % "
+          "of it; chunkdur values; optional eccp_cenc/eccp_cbcs; request instant before the advertised availability time, between it and the "
+          "segment end (paced, real time), or after the end). A recording ResponseWriter timestamps every flush. Oracle: body parses into the "
+          "same samples (times, durations, flags, payload) as the whole-segment response, styp on the first chunk only, chunks contiguous "
+          "with the segment's number, no chunk longer than segment duration - ato + one sample, one flush per chunk, no chunk flushed before "
+          "its media end minus 2 ms (one-sided), request before the advertised availability time -> 425. Non-trivial = a response with >= 2 "
+          "chunks (paced: of which >= 1 had to wait); distinct by hash of the case.",
+     quick=dict(shards=2, timeout=400), thorough=dict(shards=16, timeout=1500),
+     assumptions=COMMON + ["timing is judged one-sided (a chunk may be late, never early); no upper latency bound is asserted"])
